@@ -25,6 +25,8 @@ type C10Case struct {
 	Panic  int            `json:"panic,omitempty"`  // 0 error, 1 panic(error), 2 panic(string)
 	Proc   int            `json:"procs,omitempty"`  // GOMAXPROCS of the child for this case (0 = default)
 	Reexec int            `json:"reexec,omitempty"` // > 1: the same Query object is executed this many times
+	Burst  int            `json:"burst,omitempty"`  // fault-burst: rounds under the fault plan before one fault-free run, all in one process
+	From   int            `json:"from,omitempty"`   // fault-burst: every invocation from this one on fails
 }
 
 var c10Hostile = []string{
@@ -274,7 +276,7 @@ func genC10Doc(t *rapid.T) map[string]any {
 
 func genC10(t *rapid.T) any {
 	c := &C10Case{}
-	c.Class = rapid.SampledFrom([]string{"valid", "valid", "mutated", "mutated", "mutated", "bytes", "hostile", "hostile", "hostile-mutated", "fault", "fault", "fault", "cyclic-format", "join-on", "join-on", "scale", "dual-subquery", "stateful-builtins", "union-of-hostile", "parser-known-calls", "qualified-call-failing-argument"}).Draw(t, "class")
+	c.Class = rapid.SampledFrom([]string{"valid", "valid", "mutated", "mutated", "mutated", "bytes", "hostile", "hostile", "hostile-mutated", "fault", "fault", "fault", "cyclic-format", "join-on", "join-on", "scale", "fault-burst", "fault-burst", "dual-subquery", "stateful-builtins", "union-of-hostile", "parser-known-calls", "qualified-call-failing-argument"}).Draw(t, "class")
 	c.Opts = genC10Opts(t)
 	c.Proc = rapid.SampledFrom([]int{0, 0, 1, 2, 4}).Draw(t, "procs")
 	if rapid.IntRange(0, 3).Draw(t, "reexec") == 0 {
@@ -352,6 +354,20 @@ func genC10(t *rapid.T) any {
 		c.SQL = w.SQL(plant, q)
 		c.KSel = rapid.IntRange(0, 9).Draw(t, "ksel")
 		c.Panic = rapid.IntRange(0, 2).Draw(t, "panicmode")
+	case "fault-burst":
+		// many failing / panicking invocations in one process (every invocation from the From-th on, Burst rounds),
+		// then the same query without faults: whatever the failed calls left behind must not stop a later call
+		w := genWide(t, nil)
+		c.Doc = w.Doc
+		w.Wrapped = c.Opts.Wrapped
+		ms := w.markers()
+		plant := rapid.IntRange(0, maxInt(len(ms)-1, 0)).Draw(t, "plant")
+		q := rapid.SampledFrom([]string{"vf_fail", "ASYNC.vf_fail", "ASYNC.vf_fail", "SPIN.vf_fail", "SPINASYNC.vf_fail", "SPINASYNC.vf_fail", "ONCE.vf_fail", "AWAIT(ASYNC.vf_fail(%s))", "vf_id(ASYNC.vf_fail(%s))"}).Draw(t, "strategy")
+		c.SQL = w.SQL(plant, q)
+		c.From = rapid.IntRange(1, 3).Draw(t, "from")
+		c.Burst = rapid.SampledFrom([]int{1, 2, 5, 20, 40, 70, 70, 130, 300}).Draw(t, "burst")
+		c.Panic = rapid.IntRange(0, 2).Draw(t, "panicmode")
+		c.Reexec = 0
 	case "scale":
 		// sizes far beyond the other classes: work and memory must stay proportional to the input
 		root := ""
@@ -617,6 +633,10 @@ func checkC10(c *C10Case) Result {
 		job.SettleMs = 15
 	}
 	w := c10Worker(c.Proc)
+	if c.Class == "fault-burst" {
+		job.Burst, job.FailAt, job.Panic = c.Burst, -int64(c.From), c.Panic
+		res.Labels = append(res.Labels, fmt.Sprintf("burst:mode%d", c.Panic), "burst:rounds-"+bucket(c.Burst))
+	}
 	if c.Class == "fault" {
 		// fault-free probe to learn the number of invocations
 		probe := *job
@@ -650,7 +670,7 @@ func checkC10(c *C10Case) Result {
 		if parsed {
 			res.Labels = append(res.Labels, "reaches-build")
 		}
-		res.NonTrivial = parsed || c.Class == "fault" || c.Class == "cyclic-format" || c.Class == "mutated" || c.Class == "hostile-mutated" || c.Class == "scale" || c.Class == "dual-subquery" || c.Class == "stateful-builtins" || c.Class == "union-of-hostile" || c.Class == "parser-known-calls" || c.Class == "qualified-call-failing-argument"
+		res.NonTrivial = parsed || c.Class == "fault" || c.Class == "fault-burst" || c.Class == "cyclic-format" || c.Class == "mutated" || c.Class == "hostile-mutated" || c.Class == "scale" || c.Class == "dual-subquery" || c.Class == "stateful-builtins" || c.Class == "union-of-hostile" || c.Class == "parser-known-calls" || c.Class == "qualified-call-failing-argument"
 	}
 	return res
 }
@@ -658,7 +678,9 @@ func checkC10(c *C10Case) Result {
 // c10Judge turns a worker outcome into a violation text ("" = the call returned control).
 func c10Judge(c *C10Case, w *Worker, job *WJob, o WOutcome, res *Result, what string) string {
 	ctx := fmt.Sprintf("query %q (options %s", c.SQL, c.Opts)
-	if job.FailAt > 0 {
+	if job.Burst > 0 {
+		ctx += fmt.Sprintf(", %d rounds in one process in which every vf_fail invocation from the %d. on is %s, then one run without faults", job.Burst, -job.FailAt, []string{"returning an error", "panicking with an error", "panicking with a string"}[job.Panic])
+	} else if job.FailAt > 0 {
 		ctx += fmt.Sprintf(", vf_fail %s at invocation %d", []string{"returning an error", "panicking with an error", "panicking with a string"}[job.Panic], job.FailAt)
 	}
 	ctx += ") on " + truncate(val.JSON(c.Doc), 400)
@@ -721,7 +743,7 @@ func init() {
 			"self- and mutually-referencing CTEs, unbalanced brackets/quotes, out-of-range FROM paths, wrong-typed function arguments, qualifiers on " +
 			"unknown/aggregate/immediate functions, DML, empty input, selector syntax in FROM) on documents of regular and irregular shape, also mutated; " +
 			"fault = a planted function that returns an error / panics with an error / panics with a string at invocation k under no qualifier, ASYNC, " +
-			"SPIN, SPINASYNC, ONCE, AWAIT and nested in another call; cyclic-format = DISTINCT / ORDER BY over select lists mixing a subquery with `*`; dual-subquery = table-less scalar subqueries whose select list mixes comparisons, nested subqueries, back references and `*` in any order under DISTINCT / ORDER BY / CONCAT / HASH / GROUP BY / UNION; stateful-builtins = SETVAR / GETVAR / CONSTANT / REPORT / RAISE_WHEN / ONCE / GLOBAL calls with and without the option providing their state, always re-executed; scale = 24-64 inner arrays, nesting depth 5-9, 100-600-term expressions / parentheses / IN lists, 10-40 CTEs or UNION branches, 200-600 rows (the child's resident set is watched: growth beyond 3 GiB counts like a timeout); join-on = ON clauses of every shape (non-boolean, ill-typed, missing columns, function calls, subqueries, AND/OR trees) under every join keyword incl. PARALLEL. " +
+			"SPIN, SPINASYNC, ONCE, AWAIT and nested in another call; fault-burst = 1-300 rounds of one query in one process during which every invocation of the planted function from the 1st-3rd on fails in one of the three ways, followed by the same query without faults (failed calls must not leave anything behind that stops later ones); cyclic-format = DISTINCT / ORDER BY over select lists mixing a subquery with `*`; dual-subquery = table-less scalar subqueries whose select list mixes comparisons, nested subqueries, back references and `*` in any order under DISTINCT / ORDER BY / CONCAT / HASH / GROUP BY / UNION; stateful-builtins = SETVAR / GETVAR / CONSTANT / REPORT / RAISE_WHEN / ONCE / GLOBAL calls with and without the option providing their state, always re-executed; scale = 24-64 inner arrays, nesting depth 5-9, 100-600-term expressions / parentheses / IN lists, 10-40 CTEs or UNION branches, 200-600 rows (the child's resident set is watched: growth beyond 3 GiB counts like a timeout); join-on = ON clauses of every shape (non-boolean, ill-typed, missing columns, function calls, subqueries, AND/OR trees) under every join keyword incl. PARALLEL. " +
 			"GOMAXPROCS of the child in {default,1,2,4}; a quarter of the cases execute the same Query object two or three times. Oracle: the child answers ok or error and stays alive (a panic escaping New/Exec, a process " +
 			"death confirmed in a fresh child, or a 15 s timeout confirmed in three fresh children is a violation). Non-trivial: the query gets past " +
 			"the parser, or is a mutation, or belongs to the fault / cyclic-format class.",
